@@ -74,6 +74,50 @@ func addGRPCModel(P *Program) {
 		}
 		return tuple{zero(ct), iface{}}
 	}
+	// certificates of the model: the DER bytes are ASCII, "CA:<name>" for an authority and "LEAF:<name>"
+	// for an end-entity certificate; anything else does not parse
+	parseCert := func(i *interpreter, fn *ssa.Function, der []byte) value {
+		ct := mustDeref(fn.Signature.Results().At(0).Type())
+		if sl, ok := fn.Signature.Results().At(0).Type().Underlying().(*types.Slice); ok {
+			ct = mustDeref(sl.Elem())
+		}
+		txt := string(der)
+		isCA := strings.HasPrefix(txt, "CA:")
+		if !isCA && !strings.HasPrefix(txt, "LEAF:") {
+			return nil
+		}
+		c := zero(ct).(structure)
+		c[fieldIndex(ct, "Raw")] = fromBytes(der)
+		c[fieldIndex(ct, "IsCA")] = isCA
+		c[fieldIndex(ct, "BasicConstraintsValid")] = true
+		subj := c[fieldIndex(ct, "Subject")].(structure)
+		st := ct.Underlying().(*types.Struct)
+		for k := 0; k < st.NumFields(); k++ {
+			if st.Field(k).Name() == "Subject" {
+				subj[fieldIndex(st.Field(k).Type(), "CommonName")] = txt[strings.Index(txt, ":")+1:]
+			}
+		}
+		cell := value(c)
+		return &cell
+	}
+	h["crypto/x509.ParseCertificate"] = func(i *interpreter, fr *frame, fn *ssa.Function, args []value) value {
+		c := parseCert(i, fn, goBytes(args[0], "x509.ParseCertificate"))
+		if c == nil {
+			return tuple{(*value)(nil), i.mkError("x509: malformed certificate")}
+		}
+		return tuple{c, iface{}}
+	}
+	h["(*crypto/x509.CertPool).AddCert"] = func(i *interpreter, fr *frame, fn *ssa.Function, args []value) value {
+		p := handleOf(args[0]).(*recPool)
+		cp := args[1].(*value)
+		if cp == nil {
+			panic(targetPanic{iface{t: types.Typ[types.String], v: "adding nil Certificate to CertPool"}})
+		}
+		ct := mustDeref(fn.Signature.Params().At(1).Type())
+		raw := goBytes((*cp).(structure)[fieldIndex(ct, "Raw")], "CertPool.AddCert")
+		p.pems = append(p.pems, append([]byte("DER:"), raw...))
+		return nil
+	}
 	h["crypto/x509.NewCertPool"] = func(i *interpreter, fr *frame, fn *ssa.Function, args []value) value {
 		return newHandle(&recPool{})
 	}
